@@ -86,6 +86,11 @@ N_e == <<"e">>
 N_px == <<"p", "x">>
 N_e1x == <<"e", "1", "x">>
 N_time == <<"t", "i", "m", "e">>
+\* names the NetCDF layout reserves for its own variables are ordinary score columns in a text file
+N_x == <<"x">>
+N_cdf == <<"c", "d", "f">>
+N_threshold == <<"t", "h", "r", "e", "s", "h", "o", "l", "d">>
+N_quantile == <<"q", "u", "a", "n", "t", "i", "l", "e">>
 ---------------------------------------------------------------------------
 (* column classification, by name *)
 Regular == {N_obs, N_fcst, N_id, N_location, N_lat, N_lon, N_elev, N_altitude, N_hour, N_date, N_unixtime, N_leadtime, N_offset}
